@@ -2,6 +2,8 @@
 SPECIFICATION Spec
 CONSTANTS
   N = 4
+  Alphabet = {"sp", "tab", "nl", "cr", "sq", "dq", "bs", "a", "u", "np", "x"}
+  EscapeFinalTwice = FALSE
   Mode = "mc"
   Stride = 1
   Offset = 0
